@@ -106,6 +106,7 @@ class C07System(BuilderSystem):
                 ["set_plane", ["xy"]], ["set_plane", ["zx"]], ["set_plane", ["yz"]],
                 ["sleep", [1]], ["set_fan_speed", [255]], ["set_fan_speed", [0]], ["query", ["position"]],
                 ["query", ["temperature"]], ["pause"], ["stop"], ["wait"], ["emergency_halt", ["x"]],
+                ["set_temperature_units", ["kelvin"]], ["set_temperature_units", ["celsius"]],
                 ["set_time_units", ["ms"]], ["set_resolution", [0.5]], ["set_direction", ["ccw"]],
                 ["comment", ["S99 F99 M3"]]]
         return ops
